@@ -474,6 +474,7 @@ type CtxSpec struct {
 
 type World struct {
 	DIDWith      bool // the capability's resource is read with schema.DIDString() (as real services do) instead of withReader
+	NilDerives   bool // NewCapability(..., nil): no derivation rule given (model: dd_desc; Derives log not compared)
 	StructReader bool // caveats are read with core/schema.Struct (renamed fields) instead of the hand-written reader
 	ID           int
 	Kind         string // generator label (for statistics)
@@ -579,6 +580,9 @@ func (w *World) Build() error {
 		if err != nil {
 			return fmt.Errorf("world %d: issuing %s: %v", w.ID, sp.Name, err)
 		}
+		if mm := accessorMismatch(d, sp, sg, len(prfs)); mm != "" && curStats != nil && len(curStats.AccessorMismatches) < 20 {
+			curStats.AccessorMismatches = append(curStats.AccessorMismatches, fmt.Sprintf("world %d token %s: %s", w.ID, sp.Name, mm))
+		}
 		if sp.Tamper != "" {
 			d, err = tamper(d, sp)
 			if err != nil {
@@ -592,6 +596,34 @@ func (w *World) Build() error {
 		w.order = append(w.order, sp.Name)
 	}
 	return nil
+}
+
+// accessorMismatch: what a freshly issued token's accessors report against what was asked of Delegate.
+func accessorMismatch(d delegation.Delegation, sp *TokSpec, sg ucan.Signer, nprf int) string {
+	if e := d.Expiration(); (e == nil) != (sp.Exp == nil) || (e != nil && *e != *sp.Exp) {
+		return fmt.Sprintf("Expiration() = %s, issued with %s", coqOptZ(e), coqOptZ(sp.Exp))
+	}
+	if d.NotBefore() != sp.Nbf {
+		return fmt.Sprintf("NotBefore() = %d, issued with %d", d.NotBefore(), sp.Nbf)
+	}
+	if d.Issuer().DID() != sg.DID() {
+		return fmt.Sprintf("Issuer() = %s, issued by %s", d.Issuer().DID(), sg.DID())
+	}
+	if d.Audience().DID() != sp.Audience.DID {
+		return fmt.Sprintf("Audience() = %s, issued for %s", d.Audience().DID(), sp.Audience.DID)
+	}
+	if len(d.Proofs()) != nprf {
+		return fmt.Sprintf("Proofs() has %d entries, issued with %d", len(d.Proofs()), nprf)
+	}
+	if len(d.Capabilities()) != len(sp.Caps) {
+		return fmt.Sprintf("Capabilities() has %d entries, issued with %d", len(d.Capabilities()), len(sp.Caps))
+	}
+	for i, c := range d.Capabilities() {
+		if c.Can() != sp.Caps[i].Can || c.With() != sp.Caps[i].With {
+			return fmt.Sprintf("Capabilities()[%d] = %s on %s, issued %s on %s", i, c.Can(), c.With(), sp.Caps[i].Can, sp.Caps[i].With)
+		}
+	}
+	return ""
 }
 
 // tamper re-encodes the token with one field changed after signing.
@@ -884,6 +916,10 @@ func (w *World) descriptor(obs *Obs) validator.CapabilityParser[Cav] {
 	var wr schema.Reader[string, string] = withReader{}
 	if w.DIDWith {
 		wr = schema.DIDString()
+	}
+	if w.NilDerives {
+		// the documented default: a capability declared without a derivation rule is bound by DefaultDerives
+		return validator.NewCapability[Cav](w.Can, wr, nbReader, nil)
 	}
 	return validator.NewCapability[Cav](w.Can, wr, nbReader,
 		func(claimed, delegated ucan.Capability[Cav]) failure.Failure {
